@@ -4847,7 +4847,7 @@ variable_property:
                                     OpenParenthesisTkn:  mc.OpenParenthesisTkn,
                                     Args:                mc.Args,
                                     SeparatorTkns:       mc.SeparatorTkns,
-                                    CloseParenthesisTkn: mc.OpenParenthesisTkn,
+                                    CloseParenthesisTkn: mc.CloseParenthesisTkn,
                                 },
                             )
                             $2 = append($2, $3[1:len($3)]...)
